@@ -39,6 +39,7 @@ type rCase struct {
 	Kind   string   `json:"kind"` // "R"
 	Check  bool     `json:"check"`
 	Comp   bool     `json:"compiled"` // router.WithRouteCompilation(true)
+	Ctor   int      `json:"ctor"`     // app world: how many of the Global handlers are given through app.WithMiddleware at construction
 	Obs    bool     `json:"obs"`      // app world: observability on (the response writer tracks status and size)
 	Wire   bool     `json:"wire"`     // serve through a real HTTP server (httptest.Server) instead of calling ServeHTTP
 	App    bool     `json:"app"`
@@ -60,8 +61,11 @@ func buildR(c rCase) (*cx.World, error) {
 	bo := cx.BuildOpts{Check: c.Check, Compiled: c.Comp, Obs: c.Obs && c.App, Defaults: true}
 	if c.App {
 		// app.New installs recovery itself (default middleware)
-		if c.Global > 0 {
-			script = append(script, cx.Op{K: "AU", Hs: ids[:c.Global]})
+		if c.Ctor > 0 {
+			bo.CtorMw = ids[:c.Ctor]
+		}
+		if c.Global > c.Ctor {
+			script = append(script, cx.Op{K: "AU", Hs: ids[c.Ctor:c.Global]})
 		}
 		rest := ids[c.Global:]
 		nb := 0
@@ -139,6 +143,9 @@ func emitR(id string, c rCase, st *hx.Stats) string {
 		if c.Obs && c.App {
 			st.Count("R_app_observability_writer")
 		}
+		if c.Ctor > 0 {
+			st.Count("R_app_WithMiddleware_at_construction")
+		}
 		if res.Escaped >= 0 {
 			st.Count("R_panic_escaped")
 		}
@@ -199,7 +206,7 @@ func p(v int) cx.Act { return cx.Act{K: "P", V: v} }
 
 // panicSite draws one of the panic sites of the quantifier.
 func panicSite(r *hx.Rand, st *hx.Stats) []cx.Act {
-	v := r.Intn(5)
+	v := r.Intn(cx.NPanicValues)
 	name, acts := "", []cx.Act(nil)
 	switch r.Intn(8) {
 	case 0:
@@ -242,6 +249,9 @@ func genR(r *hx.Rand, st *hx.Stats) rCase {
 		}
 		// Global doubles as "how many go through app.Use"; the WithBefore share is what remains
 	}
+	if c.App && c.Global > 0 && r.Chance(1, 2) {
+		c.Ctor = r.Range(1, c.Global)
+	}
 	c.Wire = r.Chance(1, 8)
 	plain := [][]cx.Act{a("N"), a("N"), a("N"), a("W", "N"), a("N", "W"), a("N", "N"), a(), {{K: "K", Body: a("N")}}}
 	if !c.Wrap && !c.Wire { // cancelling the request context is not a deterministic act over a real connection
@@ -273,10 +283,42 @@ type tCase struct {
 	Custom bool     `json:"custom"` // timeout.WithHandler (signals after writing); false = the default handler
 	Pre    int      `json:"pre"`    // pass-through middleware between recovery and timeout
 	Budget int      `json:"budget"` // timeout.WithDuration in ms (0 = one hour: only the harness-controlled context ends the budget)
-	Prog   []string `json:"prog"`   // W D X aC aE aT sH aR hold P0..P4
+	Prog   []string `json:"prog"`
+	// the timed chain behind the middleware: Wrap (a nesting middleware `pre; Next(); post` in front of
+	// the main handler, acts W only), the main handler performing Prog, Tail flat handlers behind it
+	Wrap *tWrap     `json:"wrap,omitempty"`
+	Tail [][]string `json:"tail,omitempty"` // W D X aC aE aT sH aR hold P0..P4
+}
+
+type tWrap struct {
+	Pre  []string `json:"pre"`
+	Post []string `json:"post"`
 }
 
 const tHid = 7
+
+// flat renders the timed chain as the model's flat program: G<n> is the loop test of Next in front
+// of a position; when the context is done the next n acts are skipped.
+func (c tCase) flat() []string {
+	var x []string // the flat handlers from the last one backwards
+	for i := len(c.Tail) - 1; i >= 0; i-- {
+		h := append([]string{}, c.Tail[i]...)
+		if i < len(c.Tail)-1 {
+			h = append(append(h, "G"+strconv.Itoa(len(x))), x...)
+		}
+		x = h
+	}
+	m := append([]string{}, c.Prog...)
+	if len(c.Tail) > 0 {
+		m = append(append(m, "G"+strconv.Itoa(len(x))), x...)
+	}
+	if c.Wrap != nil {
+		w := append([]string{}, c.Wrap.Pre...)
+		w = append(append(w, "G"+strconv.Itoa(len(m))), m...)
+		m = append(w, c.Wrap.Post...)
+	}
+	return append([]string{"G" + strconv.Itoa(len(m))}, m...) // the bracket's own Next
+}
 
 // ctlCtx is the request context the harness controls: "the deadline passed" / "the client went
 // away" are reported through Done/Err exactly as a real parent context would.
@@ -312,7 +354,8 @@ type tState struct {
 	hExit      chan struct{}
 	hFinished  atomic.Bool
 	hStarted   atomic.Bool
-	hSteps     atomic.Int32
+	hPanicked  atomic.Bool
+	reqCtx     context.Context
 	retTimeout atomic.Bool
 	prog       []string
 	waitH      bool
@@ -323,16 +366,33 @@ type tKey struct{}
 
 func (s *tState) goH() { s.hGoOnce.Do(func() { close(s.hGo) }) }
 
-func tHandler(c *router.Context) {
+// tBracket is the first handler of the timed route: it runs inside the timeout middleware's
+// goroutine around the whole timed chain and tells the harness when that goroutine starts and ends.
+func tBracket(c *router.Context) {
 	s := c.Request.Context().Value(tKey{}).(*tState)
-	reqCtx := c.Request.Context()
+	s.reqCtx = c.Request.Context()
 	s.hStarted.Store(true)
 	defer func() {
 		s.goH()
 		s.hFinished.Store(true)
 		close(s.hExit)
 	}()
-	for _, act := range s.prog {
+	c.Next()
+}
+
+func tActs(acts []string, next bool, post []string) router.HandlerFunc {
+	return func(c *router.Context) {
+		s := c.Request.Context().Value(tKey{}).(*tState)
+		tRun(c, s, acts)
+		if next {
+			c.Next()
+		}
+		tRun(c, s, post)
+	}
+}
+
+func tRun(c *router.Context, s *tState, acts []string) {
+	for _, act := range acts {
 		switch act {
 		case "W":
 			_ = c.JSON(cx.StatusOf(tHid), map[string]int{"h": tHid})
@@ -341,7 +401,7 @@ func tHandler(c *router.Context) {
 		case "X":
 			s.parent.fire(context.Canceled)
 		case "aC":
-			<-reqCtx.Done()
+			<-s.reqCtx.Done()
 		case "aE":
 			<-s.tEntered
 		case "aT":
@@ -363,10 +423,9 @@ func tHandler(c *router.Context) {
 			}
 		default: // P<v>
 			v, _ := strconv.Atoi(act[1:])
-			s.hSteps.Add(1)
+			s.hPanicked.Store(true)
 			panicNow(v)
 		}
-		s.hSteps.Add(1)
 	}
 }
 
@@ -393,7 +452,7 @@ type tObs struct {
 	Body          []int
 	Escaped       int
 	ReleasedEarly bool
-	HSteps        int
+	HPanicked     bool
 	Follow        int
 	Discard       string
 }
@@ -413,7 +472,15 @@ func runT(c tCase) tObs {
 		opts = append(opts, timeout.WithHandler(timeoutHandler))
 	}
 	r.Use(timeout.New(opts...))
-	r.GET("/t", tHandler)
+	hs := []router.HandlerFunc{tBracket}
+	if c.Wrap != nil {
+		hs = append(hs, tActs(c.Wrap.Pre, true, c.Wrap.Post))
+	}
+	hs = append(hs, tActs(c.Prog, false, nil))
+	for _, t := range c.Tail {
+		hs = append(hs, tActs(t, false, nil))
+	}
+	r.GET("/t", hs...)
 	r.GET("/ok", func(c *router.Context) { _ = c.JSON(cx.StatusOf(okHid), map[string]int{"h": okHid}) })
 
 	s := &tState{tEntered: make(chan struct{}), tWritten: make(chan struct{}), hGo: make(chan struct{}), returned: make(chan struct{}),
@@ -457,7 +524,7 @@ func runT(c tCase) tObs {
 	if s.retTimeout.Load() {
 		o.Discard = "awaitRet fell back to its 3s timer"
 	}
-	o.HSteps = int(s.hSteps.Load())
+	o.HPanicked = s.hPanicked.Load()
 	o.Status = rec.Code
 	o.Body = cx.ParseBody(rec.Body.Bytes())
 	// follow-up on the same router
@@ -490,8 +557,10 @@ func emitT(id string, c tCase, st *hx.Stats) string {
 		}
 		return fmt.Sprintf("# %s skipped in the -race build: parent cancel races by construction (K10b)%s", id, hx.Comment(c))
 	}
-	l := hx.NewLine(id).Tok("T").Bool(c.WaitH).Bool(c.Custom).Nat(c.Budget).Nat(len(c.Prog))
-	for _, x := range c.Prog {
+	l := hx.NewLine(id).Tok("T").Bool(c.WaitH).Bool(c.Custom).Nat(c.Budget)
+	fl := c.flat()
+	l.Nat(len(fl))
+	for _, x := range fl {
 		l.Tok(x)
 	}
 	in := l.String()
@@ -510,7 +579,7 @@ func emitT(id string, c tCase, st *hx.Stats) string {
 	} else {
 		l.Nat(1).Nat(o.Escaped)
 	}
-	l.Bool(o.ReleasedEarly).Nat(o.HSteps).Nat(o.Follow)
+	l.Bool(o.ReleasedEarly).Bool(o.HPanicked).Nat(o.Follow)
 	if st != nil {
 		st.Case(in[len(id):], true)
 		st.Count("T_status_" + strconv.Itoa(o.Status))
@@ -533,8 +602,8 @@ func emitT(id string, c tCase, st *hx.Stats) string {
 // past its select (inside the timeout handler), and the handler goroutine does not finish before
 // `aT` (or before the timeout handler is blocked on it) — otherwise Go's select could see `done`
 // and `ctx.Done()` ready at once and the outcome would be a coin toss.
-func genT(r *hx.Rand, st *hx.Stats) tCase {
-	c := tCase{Kind: "T", Pre: r.Intn(2)}
+func genT(r *hx.Rand, st *hx.Stats) (c tCase) {
+	c = tCase{Kind: "T", Pre: r.Intn(2)}
 	w := func(n int) []string { // 0..n writes
 		var out []string
 		for i := r.Intn(n + 1); i > 0; i-- {
@@ -542,8 +611,43 @@ func genT(r *hx.Rand, st *hx.Stats) tCase {
 		}
 		return out
 	}
-	pv := func() string { return "P" + strconv.Itoa(r.Intn(5)) }
+	pv := func() string { return "P" + strconv.Itoa(r.Intn(cx.NPanicValues)) }
 	name := ""
+	if r.Chance(1, 30) {
+		// the budget is the middleware's own (real, 40 ms) and the request context stays live: the first
+		// of several flat handlers overruns without writing, then returns; nothing behind it may run
+		c.Custom, c.Budget = true, 40
+		c.Prog = []string{"aC", "aE", "aT"}
+		c.Tail = [][]string{w(1), {"W"}}
+		if r.Chance(1, 2) {
+			c.Tail = append(c.Tail, w(1))
+		}
+		if r.Chance(1, 3) {
+			c.Wrap = &tWrap{}
+		}
+		if st != nil {
+			st.Count("T_shape_real_deadline_first_of_flat_handlers_overruns")
+		}
+		return c
+	}
+	// the timed chain around the main handler: a nesting middleware in front, flat handlers behind
+	defer func() {
+		if c.Budget > 0 && hasAct(c.Prog, "aC") && !hasAct(c.Prog, "D") {
+			return
+		}
+		if r.Chance(1, 3) {
+			c.Wrap = &tWrap{Pre: w(1), Post: w(1)}
+			if st != nil {
+				st.Count("T_chain_nesting_middleware")
+			}
+		}
+		for i := r.Intn(4); i > 0; i-- {
+			c.Tail = append(c.Tail, w(1))
+		}
+		if st != nil {
+			st.Count("T_chain_tail_" + strconv.Itoa(len(c.Tail)))
+		}
+	}()
 	c.Prog = w(2)
 	if len(c.Prog) > 0 {
 		name = "wrote_first_"
@@ -628,6 +732,8 @@ func fixedR() []rCase {
 		{Kind: "R", Check: true, App: true, Chain: []cx.Beh{{H: 1, Acts: []cx.Act{p(2)}}, {H: 2, Acts: []cx.Act{p(4)}}}},
 		// size-tracking writer (app observability): panic after the first write in a middleware, two more positions behind it
 		{Kind: "R", Check: true, App: true, Obs: true, Global: 1, Chain: []cx.Beh{{H: 1, Acts: []cx.Act{{K: "W"}, p(2), {K: "N"}}}, {H: 2, Acts: []cx.Act{p(2)}}, {H: 3, Acts: a("W")}}},
+		// middleware given through app.WithMiddleware at construction panics before / after Next
+		{Kind: "R", Check: true, App: true, Global: 2, Ctor: 2, Chain: []cx.Beh{{H: 1, Acts: []cx.Act{{K: "N"}, p(1)}}, {H: 2, Acts: []cx.Act{p(0), {K: "N"}}}, {H: 3, Acts: a("W")}}},
 		// through a real HTTP server
 		{Kind: "R", Check: true, Wire: true, Chain: []cx.Beh{{H: 1, Acts: []cx.Act{p(4)}}, {H: 2, Acts: []cx.Act{p(1)}}}},
 		// panic after the response was started
@@ -639,12 +745,15 @@ func fixedR() []rCase {
 
 func fixedT() []tCase {
 	return []tCase{
-		{Kind: "T", Custom: true, Prog: []string{"D", "aC", "aE", "aT", "W"}},                    // K10a: handler writes behind the 408 body
-		{Kind: "T", Custom: true, Prog: []string{"W", "D", "aC", "aE", "aT"}},                    // K10a: 408 body behind the handler's output
-		{Kind: "T", Prog: []string{"X", "aC", "aR"}},                                             // K10b
-		{Kind: "T", Custom: true, Prog: []string{"D", "aC", "aE", "aT", "P0"}},                   // K10d
-		{Kind: "T", Custom: true, Prog: []string{"D", "aC", "aE", "aT"}},                         // the good case: one timeout response
-		{Kind: "T", Custom: true, Budget: 40, Prog: []string{"D", "aC", "aE", "aT", "hold"}},     // straggler: ServeHTTP must wait however long it takes
+		{Kind: "T", Custom: true, Prog: []string{"D", "aC", "aE", "aT", "W"}},                                // K10a: handler writes behind the 408 body
+		{Kind: "T", Custom: true, Prog: []string{"W", "D", "aC", "aE", "aT"}},                                // K10a: 408 body behind the handler's output
+		{Kind: "T", Prog: []string{"X", "aC", "aR"}},                                                         // K10b
+		{Kind: "T", Custom: true, Prog: []string{"D", "aC", "aE", "aT", "P0"}},                               // K10d
+		{Kind: "T", Custom: true, Prog: []string{"D", "aC", "aE", "aT"}},                                     // the good case: one timeout response
+		{Kind: "T", Custom: true, Budget: 40, Prog: []string{"D", "aC", "aE", "aT", "hold"}},                 // straggler: ServeHTTP must wait however long it takes
+		{Kind: "T", Custom: true, Budget: 40, Prog: []string{"aC", "aE", "aT"}, Tail: [][]string{{}, {"W"}}}, // real deadline, first of three flat handlers overruns silently
+		{Kind: "T", Prog: []string{"P5"}},                                                                    // a panic whose value wraps context.DeadlineExceeded, before any deadline
+		{Kind: "T", Prog: []string{"W", "P6"}, Tail: [][]string{{"W"}}},
 		{Kind: "T", Prog: []string{"W"}},                                                         // handler first
 		{Kind: "T", Prog: []string{"P1"}},                                                        // re-panic to recovery
 		{Kind: "T", Custom: true, WaitH: true, Prog: []string{"D", "aC", "aE", "W", "sH", "aT"}}, // handler writes first, then the 408 body
